@@ -387,3 +387,12 @@ Theorem C01_dropped_collection_is_not_listed :
     ~ In (coll_spec h) res.
 Proof. exact dropped_collection_is_not_listed. Qed.
 Print Assumptions C01_dropped_collection_is_not_listed.
+
+(* a listing is sorted by name (every element is <= every later one in the
+   BSON order of the `name` fields) *)
+Theorem C01_listing_sorted_by_name :
+  forall matchf l q res,
+    no_error (fun d => matchf d q) l -> filter_sorted matchf l q = inl res ->
+    sorted by_name res.
+Proof. exact filter_sorted_sorted. Qed.
+Print Assumptions C01_listing_sorted_by_name.
